@@ -58,14 +58,16 @@ const (
 	JSim
 	JLoad
 	JAsm3
+	JAsm4
 )
 
-var jobNames = []string{"assemble(mov 0, 1)", "assemble(EQU + FOR)", "simulate(shared warrior)", "load(MOV.I $ 0, $ 1)", "assemble(labels + EQU chain + ;assert)"}
+var jobNames = []string{"assemble(mov 0, 1)", "assemble(EQU + FOR)", "simulate(shared warrior)", "load(MOV.I $ 0, $ 1)", "assemble(labels + EQU chain + ;assert)", "assemble(FOR 0: a pass that emits nothing)"}
 
 const srcAsm1 = "mov 0, 1\n"
 const srcAsm2 = "n equ 2\ni for n\ndat i, n\nrof\n"
 const srcAsm3 = "a equ b+1\nb equ 2\n;assert a == 3\ns mov a, e\ne jmp s, b\n"
 const srcLoad = "MOV.I $ 0, $ 1\n"
+const srcAsm4 = "i for 0\ndat i\nrof\n"
 
 // RunJob executes one job and renders its result (error texts are not part of the result).
 func RunJob(kind int, cfg g.SimulatorConfig, shared *g.WarriorData) (res string) {
@@ -90,6 +92,8 @@ func RunJob(kind int, cfg g.SimulatorConfig, shared *g.WarriorData) (res string)
 		return render(g.CompileWarrior(strings.NewReader(srcAsm2), cfg))
 	case JAsm3:
 		return render(g.CompileWarrior(strings.NewReader(srcAsm3), cfg))
+	case JAsm4:
+		return render(g.CompileWarrior(strings.NewReader(srcAsm4), cfg))
 	case JLoad:
 		return render(g.ParseLoadFile(strings.NewReader(srcLoad), cfg))
 	case JSim:
@@ -140,7 +144,9 @@ func (s *Scenario) describe() string {
 
 // Scenarios of the interleaving exploration.
 func Scenarios(thorough bool) [][]int {
-	out := [][]int{{JAsm1, JAsm1}, {JAsm1, JSim}, {JSim, JSim}, {JLoad, JAsm1}, {JLoad, JSim}, {JAsm1, JAsm2}, {JAsm2, JSim}, {JAsm2, JAsm2}, {JAsm3, JAsm1}, {JAsm3, JAsm3}}
+	// single jobs too: one assembly already runs a consumer and one or two
+	// producer goroutines whose interleaving must not change its result
+	out := [][]int{{JAsm4}, {JAsm2}, {JAsm1}, {JAsm4, JAsm1}, {JAsm1, JAsm1}, {JAsm1, JSim}, {JSim, JSim}, {JLoad, JAsm1}, {JLoad, JSim}, {JAsm1, JAsm2}, {JAsm2, JSim}, {JAsm2, JAsm2}, {JAsm3, JAsm1}, {JAsm3, JAsm3}}
 	if thorough {
 		out = append(out, []int{JAsm1, JAsm2, JSim}, []int{JSim, JSim, JAsm1}, []int{JAsm3, JSim, JLoad}, []int{JAsm1, JAsm1, JAsm1})
 	} else {
